@@ -515,11 +515,15 @@ def replay(ctx, payload):
   return oracle(kind, inp)
 
 LEVEL_TEXT = ("Coq theorems (loop invariant + transitivity of dominance; first-minimum semantics of argmin; range of the thresholds; "
-              "counting argument for the repair) on an executable model of the dominance filter, both epsilon routines and the "
-              "minimum-success repair, for all value matrices, thresholds and masks; the model is tied to the code by exact "
-              "differential runs whose comparison is evaluated inside Coq, and the implementation's outputs are also checked "
-              "against the decidable specification proved equivalent to the theorem's statement")
+              "counting argument for the repair; the sorted frontier is a permutation of the non-dominated rows; the guaranteed minimum "
+              "survives the data flow of both wrappers that consume the labelling) on an executable model of the dominance filter, the "
+              "sorted frontier, both epsilon routines, the minimum-success repair and the epsilon-constraint branch of "
+              "filter_multimetric_points_sampled / filter_multimetric_points_sampled_spe, for all value matrices, thresholds and masks; the "
+              "model is tied to the code by exact differential runs whose comparison is evaluated inside Coq, and the implementation's "
+              "outputs are also checked against the decidable specification proved equivalent to the theorem's statement")
 LEVEL_NOTE = ("Exact arithmetic over Q (finite doubles are rationals; comparisons agree); NaN/inf excluded as in the callers; "
-              "numpy.argsort tie order is not modelled (spec-level comparison on ties); harness and case printer trusted; no axioms")
+              "numpy.argsort tie order is not modelled (spec-level comparison on ties); a history in which every observation is a reported "
+              "failure makes both wrappers raise ValueError (modelled as None, refuted as a clause: C13_wrapper_all_failed_refuted); "
+              "harness and case printer trusted; no axioms")
 TECHNIQUE = "Coq proof (loop invariant, induction) on executable model + in-Coq differential correspondence"
 DESIGN_REF = "DESIGN.md section 7, C13"
